@@ -185,6 +185,7 @@ type EnvOpts struct {
 	AutoAck              bool
 	CheckpointInterval   time.Duration
 	CheckpointTimeout    time.Duration
+	ConnectionTimeout    time.Duration // dcp.connectionTimeout (0 = the documented default)
 	RebalanceDelay       time.Duration
 	Version              *couchbase.Version
 	SkipUntil            *time.Time
@@ -327,6 +328,9 @@ func (o *EnvOpts) config() *config.Dcp {
 	cfg.Checkpoint.AutoReset = o.AutoReset
 	cfg.Checkpoint.Interval = o.CheckpointInterval
 	cfg.Checkpoint.Timeout = o.CheckpointTimeout
+	if o.ConnectionTimeout != 0 {
+		cfg.Dcp.ConnectionTimeout = o.ConnectionTimeout
+	}
 	cfg.RollbackMitigation.Disabled = !o.Mitigation
 	cfg.RollbackMitigation.Interval = 500 * time.Millisecond
 	cfg.RollbackMitigation.ConfigWatchInterval = 2 * time.Second
